@@ -89,6 +89,70 @@ theorem commandStage_step (rh : HookFn) (hrh : HookOK rh) (w : W) (cg : Oid) (li
 theorem useConn_valid (w : W) (o : Oid) (id : Nat) (inv : Inv w) (h : w.inter o = some id) : useConn w id = w :=
   useConn_live w id (inv.live o id h)
 
+theorem promptStage_step (rh : HookFn) (hrh : HookOK rh) (w : W) (cg : Oid) (id : Nat) :
+    Step w (promptStage rh w cg id).1 := by
+  unfold promptStage
+  simp only []
+  split
+  · exact Step.refl w
+  · split
+    · exact Step.refl w
+    · have s1 : Step w (rh (emit w (.tPrompt cg)) cg .prompt).1 := Step.trans (emit_same _ _).step (hrh _ _ _)
+      split
+      · exact s1
+      · split
+        · exact s1
+        · rename_i hv
+          intro inv
+          obtain ⟨inv2, r2⟩ := s1 inv
+          have hval : (rh (emit w (.tPrompt cg)) cg .prompt).1.inter cg = some id := by simpa using hv
+          rw [useConn_valid _ cg id inv2 hval]
+          obtain ⟨inv3, r3⟩ := addOut_step _ cg ">_" inv2
+          exact ⟨inv3, r2.trans r3⟩
+
+theorem plainCommand_step (rh : HookFn) (hrh : HookOK rh) (w : W) (cg : Oid) (id : Nat) (line : String) :
+    Step w (plainCommand rh w cg id line).1 := by
+  unfold plainCommand
+  simp only []
+  intro inv
+  generalize hasPIOf w id = b
+  have s1 := inputStage_step rh hrh w cg line b
+  split
+  · exact s1 inv
+  · split
+    · exact s1 inv
+    · have s2 := Step.trans s1 (commandStage_step rh hrh _ cg line)
+      split
+      · exact s2 inv
+      · split
+        · exact s2 inv
+        · rename_i hv2
+          obtain ⟨inv2, r2⟩ := s2 inv
+          have hval : (commandStage rh (inputStage rh w cg line b).1 cg line).1.inter cg = some id := by
+            simpa using hv2
+          rw [useConn_valid _ cg id inv2 hval]
+          obtain ⟨inv3, r3⟩ := promptStage_step rh hrh _ cg id inv2
+          exact ⟨inv3, r2.trans r3⟩
+
+theorem inputToCommand_step (rh : HookFn) (hrh : HookOK rh) (w : W) (cg : Oid) (id : Nat) (line tag : String) :
+    Step w (inputToCommand rh w cg id line tag).1 := by
+  unfold inputToCommand
+  simp only []
+  intro inv
+  have s1 : Step w (rh (emit (mapConn w id clearInputTo) (.tIt cg tag line)) cg (.it tag)).1 :=
+    Step.trans (Step.trans (mapConn_step w id clearInputTo (fun _ => rfl) (fun _ h => h)) (emit_same _ _).step) (hrh _ _ _)
+  split
+  · exact s1 inv
+  · split
+    · exact s1 inv
+    · rename_i hv
+      obtain ⟨inv2, r2⟩ := s1 inv
+      have hval : (rh (emit (mapConn w id clearInputTo) (.tIt cg tag line)) cg (.it tag)).1.inter cg = some id := by
+        simpa using hv
+      rw [useConn_valid _ cg id inv2 hval]
+      obtain ⟨inv3, r3⟩ := promptStage_step rh hrh _ cg id inv2
+      exact ⟨inv3, r2.trans r3⟩
+
 theorem serveCommand_step (rh : HookFn) (hrh : HookOK rh) (w : W) (c0 : Conn) :
     Step w (serveCommand rh w c0).1 := by
   unfold serveCommand
@@ -102,27 +166,9 @@ theorem serveCommand_step (rh : HookFn) (hrh : HookOK rh) (w : W) (c0 : Conn) :
       have hu : useConn w id = w := useConn_valid w c0.ob id inv hid
       rw [hu]
       have s0 : Step w (updateLoadAv w) := (updateLoadAv_same w).step
-      generalize hasPIOf (updateLoadAv w) id = b
-      have s1 := Step.trans s0 (inputStage_step rh hrh (updateLoadAv w) c0.ob (c0.cmds.headD "") b)
       split
-      · exact s1 inv
-      · split
-        · exact s1 inv
-        · have s2 := Step.trans s1 (commandStage_step rh hrh _ c0.ob (c0.cmds.headD ""))
-          split
-          · exact s2 inv
-          · split
-            · exact s2 inv
-            · rename_i hv2
-              obtain ⟨inv2, r2⟩ := s2 inv
-              have hval : (commandStage rh (inputStage rh (updateLoadAv w) c0.ob (c0.cmds.headD "") b).1
-                  c0.ob (c0.cmds.headD "")).1.inter c0.ob = some id := by
-                simpa using hv2
-              rw [useConn_valid _ c0.ob id inv2 hval]
-              split
-              · exact ⟨inv2, r2⟩
-              · obtain ⟨inv3, r3⟩ := addOut_step _ c0.ob ">_" inv2
-                exact ⟨inv3, r2.trans r3⟩
+      · exact (Step.trans s0 (inputToCommand_step rh hrh _ _ _ _ _)) inv
+      · exact (Step.trans s0 (plainCommand_step rh hrh _ _ _ _)) inv
 
 theorem processUserCommand_step (rh : HookFn) (hrh : HookOK rh) (w : W) :
     Step w (processUserCommand rh w).1 := by
@@ -167,28 +213,72 @@ theorem hbLoop_step (rh : HookFn) (hrh : HookOK rh) : ∀ (n : Nat) (w : W), Ste
         · exact h
         · exact Step.trans h (ih _)
 
-theorem resetObject_step (rh : HookFn) (hrh : HookOK rh) (w : W) (k : Nat) : Step w (resetObject rh w k) := by
-  unfold resetObject
+theorem resetObjectR_step (rh : HookFn) (hrh : HookOK rh) (w : W) (k : Nat) : Step w (resetObjectR rh w k).1 := by
+  unfold resetObjectR
   simp only []
-  have h : Step w (rh (emit { w with nextReset := fun x => if x = k then w.now + resetDuration / 2 else w.nextReset x }
+  have h : Step w (rh (emit { w with nextReset := fun x => if x = k then w.now + resetDuration / 2 else w.nextReset x,
+                                     refTime := fun x => if x = k then w.now else w.refTime x }
       (.tReset (.obj k))) (.obj k) .reset).1 :=
     by same_then (hrh _ _ _)
   split
   · exact h
   · exact Step.trans h (Same.step ⟨rfl, rfl, rfl, rfl, rfl, rfl, rfl, rfl, rfl, by trx⟩)
 
-theorem sweepResets_step (rh : HookFn) (hrh : HookOK rh) : ∀ (ks : List Nat) (w : W), Step w (sweepResets rh ks w) := by
+theorem resetObject_step (rh : HookFn) (hrh : HookOK rh) (w : W) (k : Nat) : Step w (resetObject rh w k) :=
+  resetObjectR_step rh hrh w k
+
+theorem cleanupObject_step (rh : HookFn) (hrh : HookOK rh) (w : W) (k : Nat) : Step w (cleanupObject rh w k).1 := by
+  unfold cleanupObject
+  simp only []
+  have h : Step w (rh (emit (touch w (.obj k)) (.tCleanup (.obj k))) (.obj k) .cleanup).1 :=
+    Step.trans (Step.trans (touch_same _ _).step (emit_same _ _).step) (hrh _ _ _)
+  split
+  · exact h
+  · split
+    · exact h
+    · exact Step.trans h (Same.step ⟨rfl, rfl, rfl, rfl, rfl, rfl, rfl, rfl, rfl, by trx⟩)
+
+theorem sweepObject_step (rh : HookFn) (hrh : HookOK rh) (w : W) (k : Nat) : Step w (sweepObject rh w k).1 := by
+  unfold sweepObject
+  simp only []
+  have h1 : Step w (if (w.nextReset k < w.now && !w.resetState k) = true then resetObjectR rh w k else (w, false)).1 := by
+    split
+    · exact resetObjectR_step rh hrh w k
+    · exact Step.refl w
+  revert h1
+  generalize (if (w.nextReset k < w.now && !w.resetState k) = true then resetObjectR rh w k else (w, false)) = r
+  intro h1
+  split
+  · exact h1
+  · split
+    · exact h1
+    · split
+      · exact Step.trans h1 (cleanupObject_step rh hrh r.1 k)
+      · exact h1
+
+theorem sweepPass_step (rh : HookFn) (hrh : HookOK rh) : ∀ (ks : List Nat) (w : W), Step w (sweepPass rh ks w).1 := by
   intro ks
   induction ks with
   | nil => intro w; exact Step.refl w
   | cons k ks ih =>
     intro w
-    unfold sweepResets
+    unfold sweepPass
     split
     · exact ih w
     · split
-      · exact Step.trans (resetObject_step rh hrh w k) (ih _)
-      · exact ih w
+      · exact sweepObject_step rh hrh w k
+      · exact Step.trans (sweepObject_step rh hrh w k) (ih _)
+
+theorem sweepResets_step (rh : HookFn) (hrh : HookOK rh) : ∀ (fuel : Nat) (w : W), Step w (sweepResets rh fuel w) := by
+  intro fuel
+  induction fuel with
+  | zero => intro w; exact Step.refl w
+  | succ n ih =>
+    intro w
+    unfold sweepResets
+    split
+    · exact Step.trans (sweepPass_step rh hrh w.objList w) (ih _)
+    · exact sweepPass_step rh hrh w.objList w
 
 theorem sweepCallOuts_step (rh : HookFn) (hrh : HookOK rh) : ∀ (n : Nat) (w : W), Step w (sweepCallOuts rh n w) := by
   intro n
@@ -226,7 +316,7 @@ theorem timerSweeps_step (rh : HookFn) (hrh : HookOK rh) (w : W) : Step w (timer
   have h0 : Step w { w with curHb := none } := Same.step ⟨rfl, rfl, rfl, rfl, rfl, rfl, rfl, rfl, rfl, by trx⟩
   have h1 : Step w (if ({ w with curHb := none } : W).now < ({ w with curHb := none } : W).nextSweep
       then ({ w with curHb := none } : W)
-      else popCtx (sweepResets rh ({ w with curHb := none } : W).objList
+      else popCtx (sweepResets rh (3 * ({ w with curHb := none } : W).objList.length + 3)
         (pushCtx { ({ w with curHb := none } : W) with nextSweep := ({ w with curHb := none } : W).now + sweepPeriod }))) := by
     split
     · exact h0
